@@ -125,10 +125,12 @@ CRON = {
         "quick": [
             {"name": "random", "args": ["cron", "-mode", "random", "-seed", "{seed}", "-runs", "250", "-steps", "120"]},
             {"name": "random-std", "args": ["cron", "-mode", "random", "-seed", "{seed}", "-runs", "150", "-steps", "120", "-std"]},
+            {"name": "random-system", "args": ["cron", "-mode", "random", "-seed", "{seed}", "-runs", "120", "-steps", "160", "-system"]},
         ],
         "thorough": [
             {"name": "random", "args": ["cron", "-mode", "random", "-seed", "{seed}", "-runs", "4000", "-steps", "140"]},
             {"name": "random-std", "args": ["cron", "-mode", "random", "-seed", "{seed}", "-runs", "2000", "-steps", "140", "-std"]},
+            {"name": "random-system", "args": ["cron", "-mode", "random", "-seed", "{seed}", "-runs", "1500", "-steps", "180", "-system"]},
         ],
     },
     "monitor": {"module": "MonCron.tla", "cfg": "MonCron.cfg"},
@@ -167,12 +169,12 @@ ADMISSION = _functional("admission", "Admission", "MonAdmission")
 MODULES = {"jobqueue": JOBQUEUE, "joblife": JOBLIFE, "cron": CRON, "dynconfig": DYNCONFIG, "parallel": PARALLEL, "options": OPTIONS, "admission": ADMISSION}
 
 PROPS = {
-    "C05": {"modules": ["jobqueue"], "assumptions": [
+    "C05": {"modules": ["jobqueue", "cron"], "assumptions": [
         "TLC, the Json/IOUtils community modules, and the harness's SimAPI semantics (resourceVersion conflicts, status sub-resource, no-op updates) are trusted",
         "Jobs carrying the JobConfig UID label without an owner reference are outside the modelled input class"]},
     "C06": {"modules": ["jobqueue", "cron"], "assumptions": ["FIFO is judged against what the pass saw at its SyncBegin (knowledge lag, DESIGN 3.7)"]},
     "C07": {"modules": ["jobqueue"], "assumptions": ["AddAfter durations are not interpreted: a deferred re-sync may fire at any time once armed"]},
-    "C15": {"modules": ["jobqueue"], "assumptions": [
+    "C15": {"modules": ["jobqueue", "cron"], "assumptions": [
         "lastScheduled/lastExecuted must cover Jobs that were in the cache of a jobconfigcontroller pass that ended successfully (DESIGN 3.7: what a status controller can know)",
         "the JobConfigs of this module have no cron schedule, so the expected idle state is Ready (ReadyEnabled/ReadyDisabled are exercised in the cron module)"]},
 }
@@ -260,10 +262,10 @@ NOTE_SYS = ("Trusted: TLC, the Json/IOUtils community modules, Go runtime, clien
             "projection/concretisation maps. Bounded: small constants for the exhaustive design check; finitely many schedules on the real code.")
 
 LEVEL_TEXT = {
-    "C05": "TLC exhaustively checks C05_Admission (and the counter invariants) on the JobQueue design spec (2 Jobs, all policies, lag 2, write faults, foreign writes, deletion, restart); the same formula is then evaluated by TLC on every step of traces recorded from the real activejobstore + jobqueuecontroller, driven by TLC-generated schedules replayed step-by-step and by a seeded random scheduler with fault and crash injection, each run ending with a drain and an admission probe.",
-    "C06": "TLC checks FIFO, never-refused, refused-only-at-limit and no-stuck-at-quiescence on the JobQueue design spec and evaluates the same formulas on traces of the real per-config reconciler (TLC schedules replayed + seeded random runs, drain to quiescence, livelock detection).",
+    "C05": "TLC exhaustively checks C05_Admission (and the counter invariants) on the JobQueue design spec (2 Jobs, all policies, lag 2, write faults, foreign writes, deletion, restart); the same formula is then evaluated by TLC on every step of traces recorded from the real activejobstore + jobqueuecontroller, driven by TLC-generated schedules replayed step-by-step and by a seeded random scheduler with fault and crash injection, each run ending with a drain and an admission probe. The same admission, no-stuck and status-exactness formulas are also evaluated on a composition run in the Cron module (real cron worker + cron reconciler + job queue controller + jobconfig controller + store + webhooks in one simulated world: schedule -> Job -> start -> JobConfig status -> catch-up after restart).",
+    "C06": "TLC checks FIFO, never-refused, refused-only-at-limit and no-stuck-at-quiescence on the JobQueue design spec and evaluates the same formulas on traces of the real per-config reconciler (TLC schedules replayed + seeded random runs, drain to quiescence, livelock detection). The same admission, no-stuck and status-exactness formulas are also evaluated on a composition run in the Cron module (real cron worker + cron reconciler + job queue controller + jobconfig controller + store + webhooks in one simulated world: schedule -> Job -> start -> JobConfig status -> catch-up after restart).",
     "C07": "TLC checks never-before-startAfter (state and step form) and due-Jobs-start-at-quiescence for owned and independent Jobs on the design spec and on recorded traces of the real reconcilers; the drain moves the clock past every startAfter and fires the armed deferred re-syncs only.",
-    "C15": "TLC checks on the JobQueue design spec (with the jobconfigcontroller pass as JSyncBegin/JStepWrite actions, conflicts and write faults) that at quiescence the status lists exactly the active and queued Jobs and that lastScheduled/lastExecuted are monotone and cover every Job a successful pass saw; the same formulas are evaluated by TLC on traces of the real jobconfigcontroller running next to the real queue controller (TLC schedules replayed, seeded random runs with Job removal, faults and restart).",
+    "C15": "TLC checks on the JobQueue design spec (with the jobconfigcontroller pass as JSyncBegin/JStepWrite actions, conflicts and write faults) that at quiescence the status lists exactly the active and queued Jobs and that lastScheduled/lastExecuted are monotone and cover every Job a successful pass saw; the same formulas are evaluated by TLC on traces of the real jobconfigcontroller running next to the real queue controller (TLC schedules replayed, seeded random runs with Job removal, faults and restart). The same admission, no-stuck and status-exactness formulas are also evaluated on a composition run in the Cron module (real cron worker + cron reconciler + job queue controller + jobconfig controller + store + webhooks in one simulated world: schedule -> Job -> start -> JobConfig status -> catch-up after restart).",
     "C08": "TLC exhaustively checks one-live-task-per-index, gap-free bounded retry numbering, retry delay and the creation gates on the JobLife design spec (reconcile pass split at every API call, independent Job/Pod cache lag, kubelet, user kill/delete, faults, crash) and evaluates the same formulas at every Pod creation of traces recorded from the real jobcontroller + podtaskexecutor (TLC behaviours replayed with state comparison, seeded random runs, drain).",
     "C09": "TLC checks on the JobLife design spec, with a fault or crash placed after every API call of a pass, that recorded tasks are kept, never marked lost/finished while their Pod is alive, foreign Pods are never adopted and end in AdmissionError, and that at quiescence every owned Pod is listed; the same formulas are evaluated on traces of the real controller under injected write faults (rejected and applied-but-error), crash/restart and cache lag.",
     "C10": "TLC checks on the JobLife design spec and on recorded traces of the real controller that a Success/Failed result is implied by the kubelet ground truth under the completion strategy, that recorded task results equal the Pods' real outcomes, that no owned task is alive when the Job first becomes finished, and that at the drained end every decided Job has reached its result and every undecided one has a live attempt.",
